@@ -11,11 +11,16 @@ from . import handshake_common as HC
 
 PROPS = "theories/Props/C06.v"
 RULE = ("conformant exchanges: the 24 forced corners {nonce, server_nonce, new_nonce, new_nonce_hash1, RSA ciphertext, g_a, g_b, g^ab} x "
-        "{0, 1, 2 leading zero bytes} (searched on math/big by stepping the secret exponent / redrawing new_nonce), plus random exchanges: "
-        "pq of 5..63 bits (two primes below 2^32), three RSA-2048 keys, g in 2..7, the 2048-bit group, 0..3 foreign fingerprints around the real one, "
+        "{0, 1, 2 leading zero bytes} (searched on math/big by stepping the secret exponent / redrawing new_nonce); corners on DERIVED quantities and "
+        "range ends: new_nonce[0:k] == server_nonce[0:k] for k = 1, 2, 3, 7, 8 (the salt xor with k leading zero bytes, incl. salt = 0), equal last byte, "
+        "both nonces starting with 00; pq = products of two primes just below 2^32 with 2^63 < pq < 2^64 (3037000493 x 3037000507, 4294967279 x 4294967291, "
+        "the prime pairs around 2^31.5 on either side, 2 x / 3 x / ~2^31 x the largest prime below 2^32: 8 bytes, high bit set); nonce / new_nonce / "
+        "server_nonce = 0 and all-ff, server_nonce = nonce, b = 1 and b = 2^2048-1, g_a = 2 (edge of the range check), fingerprints with the sign bit set; "
+        "plus random exchanges: "
+        "pq of 5..64 bits (two primes below 2^32), three RSA-2048 keys, g in 2..7, the 2048-bit group, 0..3 foreign fingerprints around the real one, "
         "g_a sent minimal or 256 bytes wide, dh_prime with a leading zero byte, every aligning padding length; thorough: 8 x the corners + 600 random. "
         "distinct non-trivial = distinct corner, or distinct (pq byte length, g, RSA key, g_a width) of a random exchange")
-NOTE = "quick: 24 corners + 30 random exchanges; all draws scripted through crypto/rand.Reader; SplitPQ's own math/rand stream is not controlled"
+NOTE = "quick: 24 field corners + 28 derived / range corners + 30 random exchanges; all draws scripted through crypto/rand.Reader; SplitPQ's own math/rand stream is not controlled"
 
 
 def run(ctx):
